@@ -456,7 +456,7 @@ func c20JudgeStructure(db *gorm.DB, rec *Recorder, table string, w c20Want, fina
 
 // c20JudgeAsk: gorm's own answers.  Every name gorm's parsers report for the model, and every name the tags spell out, must be
 // reported as present by Migrator().HasIndex / HasConstraint once the structure is there.
-func c20JudgeAsk(db *gorm.DB, model interface{}, w c20Want, final bool) (verdict, expected, observed string) {
+func c20JudgeAsk(db *gorm.DB, model interface{}, w c20Want, final bool, noRelFK ...bool) (verdict, expected, observed string) {
 	st := &gorm.Statement{DB: db}
 	if err := st.Parse(model); err != nil {
 		return "", "", ""
@@ -501,7 +501,7 @@ func c20JudgeAsk(db *gorm.DB, model interface{}, w c20Want, final bool) (verdict
 		}
 	}
 	for _, rel := range sch.Relationships.Relations {
-		if rel.Field.IgnoreMigration {
+		if rel.Field.IgnoreMigration || (len(noRelFK) > 0 && noRelFK[0]) { // foreign keys switched off by configuration (c20_opts.go)
 			continue
 		}
 		if c := rel.ParseConstraint(); c != nil && c.Schema == sch {
